@@ -172,7 +172,50 @@ func TestUnboundFastPath(t *testing.T) {
 		ld.AddCircuitIDSubscriber(gcid, pa)
 		ld.RemoveSubscriber(bngebpf.MACToUint64(gone))
 		ld.RemoveCircuitIDSubscriber(gcid)
+		// VLAN-keyed entries (QinQ pair, S-VLAN only, C-VLAN only) that were cached and removed again
+		vs, vc := uint16(2+rng.IntN(4000)), uint16(2+rng.IntN(4000))
+		vlanGone := [][2]uint16{{vs, vc}, {vs + 1, 0}, {0, vc + 1}}
+		for _, v := range vlanGone {
+			ld.AddVLANSubscriber(v[0], v[1], pa)
+		}
+		for _, v := range vlanGone {
+			ld.RemoveVLANSubscriber(v[0], v[1])
+		}
 		copyMaps(t, k, n)
+		for vi, v := range vlanGone {
+			var tagSets [][][2]uint16
+			switch {
+			case v[0] != 0 && v[1] != 0:
+				tagSets = [][][2]uint16{{{0x88a8, v[0]}, {0x8100, v[1]}}, {{0x8100, v[0]}, {0x8100, v[1]}}}
+			case v[1] == 0:
+				tagSets = [][][2]uint16{{{0x8100, v[0]}}, {{0x88a8, v[0]}}}
+			default:
+				tagSets = [][][2]uint16{{{0x8100, v[1]}}, {{0x88a8, v[1]}}}
+			}
+			for _, tags := range tagSets {
+				for _, msg := range []byte{1, 3} {
+					pl := dhcpPayload(msg, nil, nil, 120, 6)
+					str := net.HardwareAddr{0x06, 0x02, byte(rng.IntN(256)), byte(rng.IntN(256)), byte(r), byte(vi)}
+					copy(pl[28:34], str)
+					frame := cplane.Eth(net.HardwareAddr{0xff, 0xff, 0xff, 0xff, 0xff, 0xff}, str, 0x0800, tags, cplane.IPv4(net.IPv4zero, net.IPv4bcast, 17, 5, cplane.UDP(68, 67, pl)))
+					n.Clock(1000 * 1_000_000_000)
+					res, err := n.Run("dhcp_fastpath_prog", frame, cplane.RunOpt{IfIndex: 2})
+					if err != nil {
+						run.Violation("bpf/dhcp_fastpath.c:dhcp_fastpath_prog", "stays-inside-packet", "sanitizer-or-guard-fault", err.Error(), fmt.Sprintf("%x", frame))
+						return
+					}
+					run.Eval()
+					name := []string{"removed-subscriber-by-vlan-pair", "removed-subscriber-by-s-vlan", "removed-subscriber-by-c-vlan"}[vi]
+					run.Count("unbound_fastpath_"+name, 1)
+					run.Nontrivial(fmt.Sprintf("unboundfp|%s|%d|%d", name, len(tags), msg))
+					if res.Verdict != 2 || !bytes.Equal(res.Out, frame) {
+						run.Violation("bpf/dhcp_fastpath.c:dhcp_fastpath_prog", "unbound-subscriber-is-other-traffic", "answered-or-modified/"+name,
+							fmt.Sprintf("AddVLANSubscriber(%d,%d) then RemoveVLANSubscriber(%d,%d): a request from a station on that VLAN (tags %v, message type %d) got verdict %d (2 = pass), modified=%v", v[0], v[1], v[0], v[1], tags, msg, res.Verdict, !bytes.Equal(res.Out, frame)),
+							map[string]any{"frame": fmt.Sprintf("%x", frame), "out": fmt.Sprintf("%x", res.Out)})
+					}
+				}
+			}
+		}
 		type probe struct {
 			name string
 			mac  net.HardwareAddr
